@@ -40,6 +40,21 @@ func lenArg(v ssa.Value) (ssa.Value, bool) {
 	return nil, false
 }
 
+// sameColl: the same slice value, or two reads of one address-taken local
+// (x declared with var and filled through &x: every use is a separate load).
+func sameColl(a, b ssa.Value) bool {
+	if a == b {
+		return true
+	}
+	la, ok1 := a.(*ssa.UnOp)
+	lb, ok2 := b.(*ssa.UnOp)
+	if !ok1 || !ok2 || la.Op != token.MUL || lb.Op != token.MUL || la.X != lb.X {
+		return false
+	}
+	_, isLocal := la.X.(*ssa.Alloc)
+	return isLocal
+}
+
 func constInt(v ssa.Value) (int64, bool) {
 	k, ok := v.(*ssa.Const)
 	if !ok || k.Value == nil || k.Value.Kind() != constant.Int {
@@ -152,7 +167,7 @@ func minLen(b *ssa.BasicBlock, x ssa.Value) int64 {
 	}
 	isLen := func(v ssa.Value) bool {
 		a, ok := lenArg(stripConv(v))
-		return ok && a == x
+		return ok && sameColl(a, x)
 	}
 	for _, cf := range dominatingConds(b) {
 		op, other, ok := relFact(cf, isLen)
@@ -320,7 +335,7 @@ func (c *Ctx) lenMinusRule(rule string, fns []*ssa.Function, suppress map[string
 					continue
 				}
 				for _, u := range indexUses(sub) {
-					if u.Coll != x {
+					if !sameColl(u.Coll, x) {
 						continue
 					}
 					n++
@@ -843,4 +858,162 @@ func derivesLocally(v ssa.Value, pred func(ssa.Value) bool) bool {
 		return false
 	}
 	return walk(v, 0)
+}
+
+// lockStepRule: T14. An index saved from a loop over slice A and used after the
+// loop to index a slice field B that the loop appends to is only in range if
+// the loop appends to B exactly once per iteration (A and B advance in lock
+// step). ESP over the function: one iteration marker per trip through the loop
+// header; every iteration that goes round (or leaves through the header) must
+// have stored to B exactly once.
+func (c *Ctx) lockStepRule(rule string, fns []*ssa.Function) int {
+	n := 0
+	sl := flow.NewSlicer(c.P)
+	for _, f := range fns {
+		loops := naturalLoops(f)
+		if len(loops) == 0 {
+			continue
+		}
+		type inst struct {
+			at    ssa.Instruction
+			field string
+			owner types.Type
+			L     *loop
+		}
+		var insts []inst
+		seen := map[string]bool{}
+		for _, b := range f.Blocks {
+			for _, in := range b.Instrs {
+				var coll, idx ssa.Value
+				switch u := in.(type) {
+				case *ssa.IndexAddr:
+					coll, idx = u.X, u.Index
+				case *ssa.Index:
+					coll, idx = u.X, u.Index
+				default:
+					continue
+				}
+				if _, isK := idx.(*ssa.Const); isK {
+					continue
+				}
+				ld, ok := coll.(*ssa.UnOp)
+				if !ok || ld.Op != token.MUL {
+					continue
+				}
+				fa, ok := ld.X.(*ssa.FieldAddr)
+				if !ok {
+					continue
+				}
+				if _, isSlice := ld.Type().Underlying().(*types.Slice); !isSlice {
+					continue
+				}
+				for _, L := range loops {
+					if L.Body[b] {
+						continue
+					}
+					// index derives from a counter of L
+					derives := sl.Derives(idx, func(x ssa.Value) bool {
+						ph, ok := x.(*ssa.Phi)
+						return ok && ph.Block() == L.Header
+					})
+					if !derives {
+						continue
+					}
+					key := fmt.Sprintf("%s|%d", flow.FieldName(fa), L.Header.Index)
+					if seen[key] {
+						continue
+					}
+					seen[key] = true
+					insts = append(insts, inst{in, flow.FieldName(fa), fa.X.Type(), L})
+				}
+			}
+		}
+		for _, it := range insts {
+			it := it
+			isAppendStore := func(in ssa.Instruction) bool {
+				st, ok := in.(*ssa.Store)
+				if !ok {
+					return false
+				}
+				fa, ok := st.Addr.(*ssa.FieldAddr)
+				return ok && flow.FieldName(fa) == it.field && types.Identical(fa.X.Type(), it.owner)
+			}
+			// the loop must store to the field at all (otherwise the index is into something else)
+			stores := 0
+			for b := range it.L.Body {
+				for _, in := range b.Instrs {
+					if isAppendStore(in) {
+						stores++
+					}
+					if call, ok := in.(ssa.CallInstruction); ok {
+						for _, g := range c.P.Callees(call) {
+							if g.Parent() == f {
+								for _, gb := range g.Blocks {
+									for _, gi := range gb.Instrs {
+										if isAppendStore(gi) {
+											stores++
+										}
+									}
+								}
+							}
+						}
+					}
+				}
+			}
+			if stores == 0 {
+				continue
+			}
+			n++
+			// iteration marker: first non-φ instruction of the header
+			var marker ssa.Instruction
+			for _, in := range it.L.Header.Instrs {
+				if _, isPhi := in.(*ssa.Phi); !isPhi {
+					marker = in
+					break
+				}
+			}
+			const (
+				bIn uint = iota
+				bOne
+				bMany
+			)
+			r := &esp.Rule{Name: "T14"}
+			r.Relevant = func(g *ssa.Function) bool { return g.Parent() == f }
+			r.Match = func(in ssa.Instruction) []esp.Ev {
+				if in == marker {
+					return []esp.Ev{{ID: 0, Name: "iteration", ErrIdx: -1, BoolIdx: -1}}
+				}
+				if isAppendStore(in) {
+					return []esp.Ev{{ID: 1, Name: "append to " + it.field, ErrIdx: -1, BoolIdx: -1}}
+				}
+				return nil
+			}
+			r.Step = func(x *esp.Ctx, s esp.State, ev esp.Ev, ph esp.Phase) (esp.State, string) {
+				switch ev.ID {
+				case 0:
+					msg := ""
+					if s.Has(bIn) && !s.Has(bOne) {
+						msg = "T14: an iteration of the loop went round without appending to " + it.field
+					} else if s.Has(bMany) {
+						msg = "T14: an iteration of the loop appended to " + it.field + " more than once"
+					}
+					return s.Set(bIn).Clear(bOne).Clear(bMany), msg
+				case 1:
+					if s.Has(bOne) {
+						return s.Set(bMany), ""
+					}
+					return s.Set(bOne), ""
+				}
+				return s, ""
+			}
+			e := c.engine(r)
+			e.Run(f, esp.State{})
+			construct := fmt.Sprintf("%s:%s indexed by a saved loop counter", load.FuncName(f), it.field)
+			if c.reportEngine(e, rule, func(v *esp.Violation) string { return construct }) == 0 {
+				c.S.OK(rule, construct, c.pos(it.at.Pos()), fmt.Sprintf("the loop appends to %s exactly once per iteration on every path (%d configurations)", it.field, e.Configs), true)
+			}
+		}
+	}
+	c.S.Count("lock_step_indices", n)
+	return n
 }
